@@ -21,7 +21,8 @@ def fam? (a s : Term) : Option Fam := do
 
 def ascii? (t : Term) : Option Bytes := do
   let b ← asBytes? t
-  if b.all (· < 128) then some b else none
+  -- the Rust value is a `String`: any well-formed UTF-8
+  if utf8Valid b then some b else none
 
 /-! attribute data -/
 
@@ -187,6 +188,9 @@ def hasWireForm (f : Fam) (reach : Bool) (kind seed : Nat) : Bool :=
   let maxMask := if f.afi = 1 then 32 else 128
   if (f.afi = 1 ∨ f.afi = 2) ∧ f.safi = 128 then 24 * kind + 64 + seed % (maxMask + 1) ≤ 255
   else if (f.afi = 1 ∨ f.afi = 2) ∧ f.safi = 4 then (if reach then 24 * kind + seed % (maxMask + 1) ≤ 255 else true)
+  -- flowspec kind 4 = a rule body of exactly `FLOW_BODY_TARGETS[seed % 12]` octets; the length field has 12 bits
+  else if (f.afi = 1 ∨ f.afi = 2) ∧ (f.safi = 133 ∨ f.safi = 134) ∧ kind = 4 then
+    ([238, 239, 240, 241, 242, 254, 255, 256, 257, 4094, 4095, 4096].getD (seed % 12) 0) ≤ 4095
   else true
 
 def probe? (w : Bool) : Term → Option Nlri
